@@ -68,13 +68,16 @@ struct CtlState {
 pub struct Ctl {
     m: Mutex<CtlState>,
     cv: Condvar,
+    /// see `Scenario::fine`
+    fine: bool,
 }
 
 struct AbortExec;
 
 impl Ctl {
-    fn new(n: usize, prefix: Vec<u8>) -> Ctl {
+    fn new(n: usize, prefix: Vec<u8>, fine: bool) -> Ctl {
         Ctl {
+            fine,
             m: Mutex::new(CtlState {
                 status: vec![Th::NotStarted; n],
                 running: None,
@@ -238,6 +241,9 @@ impl Ctl {
 
 impl Controller for Ctl {
     fn point(&self, name: &'static str) {
+        if !self.fine && name.starts_with("atomic.") {
+            return;
+        }
         self.park(name, PKind::Point);
     }
     fn yield_point(&self, name: &'static str) {
@@ -312,6 +318,9 @@ pub enum Sys {
 pub struct Scenario {
     pub name: &'static str,
     pub sys: Sys,
+    /// atomic operations of crux_core / crux_time (instrumented types in verification builds) are
+    /// schedule points too; off: only the named points and the lock operations are
+    pub fine: bool,
     /// events delivered single-threaded before the threads start; their requests become handles
     pub setup: Vec<Event>,
     pub threads: Vec<Vec<Call>>,
@@ -547,7 +556,7 @@ pub fn run(scn: &Scenario, schedule: Option<&[u8]>, order: Option<&[(usize, usiz
     let mut leftover: Vec<(usize, Handle)> = vec![];
     if let Some(prefix) = schedule {
         let n = scn.threads.len();
-        let ctl = Arc::new(Ctl::new(n, prefix.to_vec()));
+        let ctl = Arc::new(Ctl::new(n, prefix.to_vec(), scn.fine));
         let mut joins = vec![];
         for (t, mine) in per_thread.into_iter().enumerate() {
             let (ctl, sys, results, panics) = (ctl.clone(), sys.clone(), results.clone(), panics.clone());
@@ -580,45 +589,7 @@ pub fn run(scn: &Scenario, schedule: Option<&[u8]>, order: Option<&[(usize, usiz
                 mine
             }));
         }
-        // coordinator: wait for everybody to arrive, take the first decision, wait for the end
-        {
-            let mut st = ctl.m.lock().unwrap();
-            while !st.status.iter().all(|t| matches!(t, Th::Parked(..))) {
-                st = ctl.cv.wait(st).unwrap();
-            }
-            Ctl::decide(&mut st, None);
-            ctl.cv.notify_all();
-            let t0 = Instant::now();
-            let mut last_points = st.points;
-            let mut last_progress = Instant::now();
-            while !st.done && !(st.abort.is_some() && st.status.iter().all(|t| *t == Th::Finished)) {
-                let (g, _) = ctl.cv.wait_timeout(st, Duration::from_millis(100)).unwrap();
-                st = g;
-                if st.points != last_points || st.status.iter().all(|t| *t == Th::Finished) {
-                    last_points = st.points;
-                    last_progress = Instant::now();
-                } else if last_progress.elapsed() > Duration::from_millis(2500) && st.abort.is_none() {
-                    if let Some(r) = st.running {
-                        if st.status[r] == Th::Running {
-                            st.status[r] = Th::Stuck;
-                            st.running = None;
-                            Ctl::decide(&mut st, None);
-                            ctl.cv.notify_all();
-                            last_progress = Instant::now();
-                        }
-                    }
-                }
-                if t0.elapsed() > Duration::from_secs(20) {
-                    let at: Vec<_> = st.status.clone();
-                    mc_kit::machinery_error(&format!(
-                        "scheduler hang in scenario {} (a thread blocked outside a schedule point?) prefix {:?} status {:?}",
-                        scn.name, prefix, at
-                    ));
-                }
-            }
-            decisions = st.decisions.clone();
-            abort = st.abort.clone();
-        }
+        (decisions, abort) = coordinate(&ctl, scn.name, prefix);
         for j in joins {
             if let Ok(mine) = j.join() {
                 leftover.extend(mine);
@@ -795,6 +766,176 @@ pub fn run(scn: &Scenario, schedule: Option<&[u8]>, order: Option<&[(usize, usiz
     Execution { outcome: out, decisions, abort, panics: panics_v, log }
 }
 
+/// Coordinator of one controlled execution: waits for every thread to arrive, takes the first
+/// decision, waits for the end (marking a thread that stopped outside a schedule point as stuck).
+fn coordinate(ctl: &Ctl, what: &str, prefix: &[u8]) -> (Vec<Decision>, Option<String>) {
+    let mut st = ctl.m.lock().unwrap();
+    while !st.status.iter().all(|t| matches!(t, Th::Parked(..))) {
+        st = ctl.cv.wait(st).unwrap();
+    }
+    Ctl::decide(&mut st, None);
+    ctl.cv.notify_all();
+    let t0 = Instant::now();
+    let mut last_points = st.points;
+    let mut last_progress = Instant::now();
+    while !st.done && !(st.abort.is_some() && st.status.iter().all(|t| *t == Th::Finished)) {
+        let (g, _) = ctl.cv.wait_timeout(st, Duration::from_millis(100)).unwrap();
+        st = g;
+        if st.points != last_points || st.status.iter().all(|t| *t == Th::Finished) {
+            last_points = st.points;
+            last_progress = Instant::now();
+        } else if last_progress.elapsed() > Duration::from_millis(2500) && st.abort.is_none() {
+            if let Some(r) = st.running {
+                if st.status[r] == Th::Running {
+                    st.status[r] = Th::Stuck;
+                    st.running = None;
+                    Ctl::decide(&mut st, None);
+                    ctl.cv.notify_all();
+                    last_progress = Instant::now();
+                }
+            }
+        }
+        if t0.elapsed() > Duration::from_secs(20) {
+            let at: Vec<_> = st.status.clone();
+            mc_kit::machinery_error(&format!(
+                "scheduler hang in scenario {} (a thread blocked outside a schedule point?) prefix {:?} status {:?}",
+                what, prefix, at
+            ));
+        }
+    }
+    (st.decisions.clone(), st.abort.clone())
+}
+
+/// Result of one controlled execution of arbitrary thread bodies (see `run_controlled`).
+pub struct Controlled<T> {
+    pub results: Vec<Option<T>>,
+    pub decisions: Vec<Decision>,
+    pub abort: Option<String>,
+    pub panics: Vec<String>,
+}
+
+/// Runs the given bodies on real threads under the controller, following `prefix` and taking
+/// choice 0 afterwards. The generic core of `run`, for drivers that are not Core/Bridge scenarios.
+pub fn run_controlled<T: Send + 'static>(bodies: Vec<Box<dyn FnOnce() -> T + Send>>, prefix: &[u8], fine: bool, what: &str) -> Controlled<T> {
+    let n = bodies.len();
+    let ctl = Arc::new(Ctl::new(n, prefix.to_vec(), fine));
+    let panics: Arc<Mutex<Vec<String>>> = Arc::new(Mutex::new(vec![]));
+    let mut joins = vec![];
+    for (t, body) in bodies.into_iter().enumerate() {
+        let (ctl, panics) = (ctl.clone(), panics.clone());
+        joins.push(std::thread::spawn(move || {
+            ME.with(|m| m.set(t));
+            mc_kit::capture_on_this_thread(true);
+            let r = std::panic::catch_unwind(std::panic::AssertUnwindSafe(|| {
+                ctl.arrive(t);
+                crux_core::verif::set_controller(Some(ctl.clone() as Arc<dyn Controller>));
+                body()
+            }));
+            crux_core::verif::set_controller(None);
+            let out = match r {
+                Ok(v) => Some(v),
+                Err(payload) => {
+                    if !payload.is::<AbortExec>() {
+                        let info = mc_kit::take_last_panic();
+                        panics.lock().unwrap().push(match (info, payload.downcast_ref::<String>()) {
+                            (_, Some(s)) => s.clone(),
+                            (Some(p), _) => format!("{} at {}:{}", p.message, p.file, p.line),
+                            _ => "panic".into(),
+                        });
+                    }
+                    None
+                }
+            };
+            ME.with(|m| m.set(usize::MAX));
+            ctl.finish(t);
+            out
+        }));
+    }
+    let (decisions, abort) = coordinate(&ctl, what, prefix);
+    let results = joins.into_iter().map(|j| j.join().ok().flatten()).collect();
+    let panics = panics.lock().unwrap().clone();
+    Controlled { results, decisions, abort, panics }
+}
+
+pub struct ControlledResult {
+    pub executions: u64,
+    pub decisions: u64,
+    pub bound_completed: Option<usize>,
+    pub distinct_results: usize,
+    /// (key, what, choices)
+    pub violations: Vec<(String, String, Vec<u8>)>,
+}
+
+/// Preemption-bounded depth-first search over the schedules of `make()`'s bodies; `check` judges one
+/// execution, `show` gives the canonical form of its results (for the count of distinct results).
+pub fn explore_controlled<T: Send + 'static>(
+    what: &str,
+    make: &dyn Fn() -> Vec<Box<dyn FnOnce() -> T + Send>>,
+    max_bound: usize,
+    fine: bool,
+    show: &dyn Fn(&[Option<T>]) -> String,
+    check: &dyn Fn(&Controlled<T>) -> Option<(String, String)>,
+) -> ControlledResult {
+    let mut res = ControlledResult { executions: 0, decisions: 0, bound_completed: None, distinct_results: 0, violations: vec![] };
+    let mut distinct: BTreeSet<String> = BTreeSet::new();
+    // harness determinism: the default schedule twice
+    let (a, b) = (run_controlled(make(), &[], fine, what), run_controlled(make(), &[], fine, what));
+    if a.decisions.len() != b.decisions.len() || a.decisions.iter().zip(&b.decisions).any(|(x, y)| x.enabled != y.enabled || x.at != y.at) {
+        mc_kit::machinery_error(&format!("driver {what} is not deterministic under the controller"));
+    }
+    for bound in 0..=max_bound {
+        let mut stack: Vec<Vec<u8>> = vec![vec![]];
+        while let Some(prefix) = stack.pop() {
+            let ex = run_controlled(make(), &prefix, fine, what);
+            res.executions += 1;
+            res.decisions += ex.decisions.len() as u64;
+            let choices: Vec<u8> = ex.decisions.iter().map(|d| d.chosen as u8).collect();
+            if let Some(a) = &ex.abort {
+                if a.starts_with("replay divergence") {
+                    mc_kit::machinery_error(&format!("{a} in driver {what} prefix {prefix:?}"));
+                }
+            }
+            distinct.insert(show(&ex.results));
+            let verdict = if let Some(a) = &ex.abort {
+                Some((if a.starts_with("deadlock") { "deadlock".to_string() } else { "livelock".to_string() }, a.clone()))
+            } else if !ex.panics.is_empty() {
+                Some((format!("panic/{}", short(&ex.panics[0])), format!("panic in a concurrent call: {:?}", ex.panics)))
+            } else {
+                check(&ex)
+            };
+            if let Some((key, what_failed)) = verdict {
+                if !res.violations.iter().any(|(k, _, _)| *k == key) {
+                    res.violations.push((key, format!("driver {what}, preemption bound {bound}, schedule {choices:?}: {what_failed}"), choices.clone()));
+                }
+            }
+            let mut pre = 0usize;
+            let mut costs = vec![];
+            for d in &ex.decisions {
+                costs.push(pre);
+                if d.chosen != 0 && d.cur_enabled {
+                    pre += 1;
+                }
+            }
+            for i in prefix.len()..ex.decisions.len() {
+                let d = &ex.decisions[i];
+                for alt in 1..d.enabled.len() {
+                    if costs[i] + usize::from(d.cur_enabled) <= bound {
+                        let mut p2: Vec<u8> = choices[..i].to_vec();
+                        p2.push(alt as u8);
+                        stack.push(p2);
+                    }
+                }
+            }
+        }
+        res.bound_completed = Some(bound);
+        if !res.violations.is_empty() {
+            break;
+        }
+    }
+    res.distinct_results = distinct.len();
+    res
+}
+
 /// all merges of the threads' call lists (sequential orders that respect per-thread order), as
 /// (thread, call index) pairs
 fn merges(lens: &[usize]) -> Vec<Vec<(usize, usize)>> {
@@ -884,6 +1025,8 @@ fn schedule_json(scn: &Scenario, prefix: &[u8], ex: &Execution) -> Value {
 pub fn explore(scn: &Scenario, max_bound: usize, max_execs: u64, deadline: &mc_kit::Deadline) -> ScenarioResult {
     // three-thread drivers grow fastest: one bound less
     let max_bound = if scn.threads.len() > 2 { max_bound.saturating_sub(1).max(1) } else { max_bound };
+    // with every atomic operation a schedule point the executions are several times longer: one bound less
+    let max_bound = if scn.fine { max_bound.saturating_sub(1).max(1) } else { max_bound };
     let lens: Vec<usize> = scn.threads.iter().map(Vec::len).collect();
     let mut seq: BTreeSet<Outcome> = BTreeSet::new();
     let mut res = ScenarioResult {
@@ -1079,36 +1222,42 @@ pub fn scenarios(thorough: bool) -> Vec<Scenario> {
         Scenario {
             name: "S1 live subscription, two threads deliver items through Bridge::handle_response (same id)",
             sys: Sys::Bridge,
+            fine: false,
             setup: vec![start(P::Stream(s(2)))],
             threads: vec![vec![Call::Resolve(0)], vec![Call::Resolve(0)]],
         },
         Scenario {
             name: "S2 join!(r1,r2): A resolves r1, B resolves r2 (Core::resolve)",
             sys: Sys::Core,
+            fine: false,
             setup: vec![start(P::Join(s(2), s(4)))],
             threads: vec![vec![Call::Resolve(0)], vec![Call::Resolve(1)]],
         },
         Scenario {
             name: "S3 A process_event(new command) || B resolves a request of an older command",
             sys: Sys::Core,
+            fine: false,
             setup: vec![start(P::Req(s(2)))],
             threads: vec![vec![Call::Event(start(P::ReqReq(s(4), s(6))))], vec![Call::Resolve(0)]],
         },
         Scenario {
             name: "S4 legacy join!(r1,r2): A resolves r1, B resolves r2",
             sys: Sys::Core,
+            fine: false,
             setup: vec![Event::StartLegacy(P::Join(s(2), s(4)))],
             threads: vec![vec![Call::Resolve(0)], vec![Call::Resolve(1)]],
         },
         Scenario {
             name: "S5 A process_event(burst) || B view || C resolve",
             sys: Sys::Core,
+            fine: false,
             setup: vec![start(P::Req(s(2)))],
             threads: vec![vec![Call::Event(start(P::Burst(s(3), s(4))))], vec![Call::View], vec![Call::Resolve(0)]],
         },
         Scenario {
             name: "S6 A and B both process_event, each a burst of events plus effects",
             sys: Sys::Core,
+            fine: false,
             setup: vec![],
             threads: vec![
                 vec![Call::Event(start(P::All(vec![P::Burst(s(1), s(2)), P::Notify(s(4))])))],
@@ -1118,42 +1267,49 @@ pub fn scenarios(thorough: bool) -> Vec<Scenario> {
         Scenario {
             name: "S8 select(r1,r2): A resolves r1 || B drops r2",
             sys: Sys::Core,
+            fine: false,
             setup: vec![start(P::Select(s(2), s(4)))],
             threads: vec![vec![Call::Resolve(0)], vec![Call::DropReq(1)]],
         },
         Scenario {
             name: "S9 all([req,req]) in one command: A resolves r1, B resolves r2",
             sys: Sys::Core,
+            fine: false,
             setup: vec![start(P::All(vec![P::Req(s(2)), P::Req(s(4))]))],
             threads: vec![vec![Call::Resolve(0)], vec![Call::Resolve(1)]],
         },
         Scenario {
             name: "S10 stream.then_request: A delivers an outer item || B resolves the in-flight inner request",
             sys: Sys::Core,
+            fine: false,
             setup: vec![start(P::All(vec![P::Stream(s(2)), P::ReqReq(s(4), s(6))]))],
             threads: vec![vec![Call::Resolve(0)], vec![Call::Resolve(1)]],
         },
         Scenario {
             name: "S11 two subscriptions of two commands, one item each, through the bridge",
             sys: Sys::Bridge,
+            fine: false,
             setup: vec![start(P::Stream(s(2))), start(P::Stream(s(4)))],
             threads: vec![vec![Call::Resolve(0)], vec![Call::Resolve(1)]],
         },
         Scenario {
             name: "S12 spawn+join handle: A resolves the child's request || B resolves a sibling request",
             sys: Sys::Core,
+            fine: false,
             setup: vec![start(P::All(vec![P::SpawnJoin(s(2), s(3)), P::Req(s(4))]))],
             threads: vec![vec![Call::Resolve(0)], vec![Call::Resolve(1)]],
         },
         Scenario {
             name: "S13 legacy: A resolves a request whose task then spawns another || B delivers an event",
             sys: Sys::Core,
+            fine: false,
             setup: vec![Event::StartLegacy(P::SpawnAfter(s(2), s(4)))],
             threads: vec![vec![Call::Resolve(0)], vec![Call::Event(Event::StartLegacy(P::Burst(s(5), s(6))))]],
         },
         Scenario {
             name: "S14 one thread makes two calls (event, then resolve of an old request) || other resolves",
             sys: Sys::Core,
+            fine: false,
             setup: vec![start(P::Join(s(2), s(4)))],
             threads: vec![vec![Call::Event(start(P::Notify(s(6)))), Call::Resolve(0)], vec![Call::Resolve(1)]],
         },
@@ -1161,6 +1317,7 @@ pub fn scenarios(thorough: bool) -> Vec<Scenario> {
     v.push(Scenario {
         name: "S17 two threads deliver events through the Bridge; each registers a request (ids must not collide, routing must hold)",
         sys: Sys::Bridge,
+        fine: false,
         setup: vec![],
         threads: vec![
             vec![Call::Event(start(P::All(vec![P::Req(s(2)), P::Notify(s(4))])))],
@@ -1170,24 +1327,28 @@ pub fn scenarios(thorough: bool) -> Vec<Scenario> {
     v.push(Scenario {
         name: "S18 bridge: A answers a one-shot whose continuation registers a new request || B delivers an event that registers one",
         sys: Sys::Bridge,
+        fine: false,
         setup: vec![start(P::ReqReq(s(2), s(4)))],
         threads: vec![vec![Call::Resolve(0)], vec![Call::Event(start(P::Req(s(6))))]],
     });
     v.push(Scenario {
         name: "S19 legacy subscription (ShellStream), two threads deliver items through Bridge::handle_response (same id)",
         sys: Sys::Bridge,
+        fine: false,
         setup: vec![Event::StartLegacy(P::Stream(s(2)))],
         threads: vec![vec![Call::Resolve(0)], vec![Call::Resolve(0)]],
     });
     v.push(Scenario {
         name: "S20 legacy: A delivers a stream item || B resolves a one-shot of the same capability batch",
         sys: Sys::Core,
+        fine: false,
         setup: vec![Event::StartLegacy(P::All(vec![P::Stream(s(2)), P::Req(s(4))]))],
         threads: vec![vec![Call::Resolve(0)], vec![Call::Resolve(1)]],
     });
     v.push(Scenario {
         name: "S22 bridge: A ends a subscription's consumer, then sends a late item (entry removed) || B delivers an event that registers a request (slot reuse)",
         sys: Sys::Bridge,
+        fine: false,
         setup: vec![start(P::StreamUntil(s(2), s(4)))],
         threads: vec![vec![Call::Resolve(1), Call::Resolve(0)], vec![Call::Event(start(P::Req(s(6))))]],
     });
@@ -1195,23 +1356,41 @@ pub fn scenarios(thorough: bool) -> Vec<Scenario> {
         v.push(Scenario {
             name: "S21 legacy: A delivers a stream item || B delivers an event starting a legacy burst",
             sys: Sys::Core,
+            fine: false,
             setup: vec![Event::StartLegacy(P::Stream(s(2)))],
             threads: vec![vec![Call::Resolve(0)], vec![Call::Event(Event::StartLegacy(P::Burst(s(5), s(6))))]],
         });
         v.push(Scenario {
             name: "S15 three threads: two resolve a join, one delivers an event",
             sys: Sys::Core,
+            fine: false,
             setup: vec![start(P::Join(s(2), s(4)))],
             threads: vec![vec![Call::Resolve(0)], vec![Call::Resolve(1)], vec![Call::Event(start(P::Req(s(6))))]],
         });
         v.push(Scenario {
             name: "S16 subscription: A delivers two items || B delivers one (typed core)",
             sys: Sys::Core,
+            fine: false,
             setup: vec![start(P::Stream(s(2)))],
             threads: vec![vec![Call::Resolve(0), Call::Resolve(0)], vec![Call::Event(start(P::Req(s(4))))]],
         });
     }
+    // every driver once more with the atomic operations visible (names are looked up by replays)
+    let fine: Vec<Scenario> = v
+        .iter()
+        .map(|s| Scenario { name: fine_name(s.name), fine: true, ..s.clone() })
+        .collect();
+    v.extend(fine);
     v
+}
+
+fn fine_name(name: &'static str) -> &'static str {
+    static NAMES: Mutex<BTreeMap<&'static str, &'static str>> = Mutex::new(BTreeMap::new());
+    *NAMES
+        .lock()
+        .unwrap()
+        .entry(name)
+        .or_insert_with(|| Box::leak(format!("{name} [atomic operations are schedule points]").into_boxed_str()))
 }
 
 pub fn replay(case: &Value) -> i32 {
